@@ -1,5 +1,5 @@
 """C09 - a show accepted by the type checker never fails for its static type (DESIGN 7/C09)."""
-import json, shutil
+import json, os
 import rig
 from rig import Infra
 
@@ -13,8 +13,8 @@ META = {
                  "runs every cell on the real scriggo, a TLC Trace spec evaluates the relation",
     "level": "model_checking",
     "level_text": "TLC explores the life cycle declared -> accepted|rejected -> shown|failed of every cell of the grid "
-                  "(19 contexts quick / 39 thorough x 99 type classes x {full, zero value} x boxes) on the transcribed "
-                  "tables and checks B => ~R and R' => ~B on it (once for the intended tables, once for the tables as "
+                  "(19 contexts quick / 39 thorough x 99 type classes x value variants (non-nil one-element value; thorough also the zero value) x boxes) on the transcribed "
+                  "tables and checks B => ~R and R' => ~B on it (for the intended tables and for the tables as "
                   "they are in the code today); the same grid, exported by TLC, is built and run on the real code and "
                   "every record is judged by the TLA+ relation. Exhaustive over the grid.",
     "level_note": "Trusted: TLC, the Json module, the Go driver (registry of values and context templates; it only "
@@ -33,6 +33,11 @@ AS_IS = {"FixUintptr": False,   # runtime.toString has no reflect.Uintptr case
          "FixMapKey": False,    # checkShowJS/JSON test Implements(Stringer) on the map type, not on its key type
          "FixMdURL": False}     # showInURL (Markdown URL) does not accept Markdown stringers
 INTENDED = {k: True for k in AS_IS}
+# for scratch worktrees (VERIF_REPO=...): VERIF_C09_FIXED="FixUintptr,FixMdURL" or "all" models those fixes as applied
+_fx = os.environ.get("VERIF_C09_FIXED", "")
+for _k in AS_IS:
+    if _fx == "all" or _k in _fx.split(","):
+        AS_IS[_k] = True
 
 _W1 = "runtime.toString has no reflect.Uintptr case: a uintptr (or named uintptr) value accepted by checkShow fails with 'cannot show value of type uintptr'"
 _W2 = "map with uintptr key shown as JavaScript/JSON: key accepted by checkShowJS/JSON, converted by toString which lacks reflect.Uintptr"
@@ -193,28 +198,23 @@ def pipeline(ctx, cases, full):
 
 def run(ctx):
     tier = ctx.pick("quick", "thorough")
-    invs = ["ModelAcceptedNeverFails", "ModelBoxedFailsOnlyIfRejected", "ModelAnyBuilds"]
-    # 1. the intended tables satisfy the property on the whole grid (must pass); grid export
-    wd, r = mc(ctx, "mc", dict(INTENDED, Tier=tier), invs, stop_ok=False)
+    invs = ["ModelAcceptedNeverFails", "ModelBoxedFailsOnlyIfRejected", "ModelAnyBuilds", "AsIsFailureIsExported"]
+    # the intended tables must satisfy the property on the whole grid; the as-is tables are explored in the
+    # same run and their failures exported (design-level counterexamples, diagnostic); grid export
+    wd, r = mc(ctx, "mc", dict(AS_IS, Tier=tier), invs, stop_ok=False)
     stats = rig.read_ndjson(wd / "model_stats.ndjson")[0]
     ctx.cov.update(states=r.distinct, transitions=r.generated, mc_wall_s=round(r.wall, 1), mc_invariants=invs,
-                   bounds=f"tier={tier}: {stats['contexts']} contexts x {stats['type_classes']} type classes x 2 value variants = {stats['cells']} cells",
-                   model_intended=stats)
+                   bounds=f"tier={tier}: {stats['contexts']} contexts x {stats['type_classes']} type classes x {stats['vals']} value variant(s) = {stats['cells']} cells",
+                   model_stats=stats, model_as_is_flags=str(AS_IS))
     if not ctx.quick:
         ctx.cov["actions_never_taken"] = r.coverage_zero()
     cases = wd / "cases.ndjson"
-    # 2. the tables as they are in the code today (diagnostic: design-level counterexamples)
-    model_bad = []
-    if AS_IS != INTENDED:
-        wd2, r2 = mc(ctx, "mc_as_is", dict(AS_IS, Tier=tier), invs, stop_ok=True)
-        model_bad = rig.read_ndjson(wd2 / "model_bad.ndjson")
-        st2 = rig.read_ndjson(wd2 / "model_stats.ndjson")[0]
-        ctx.cov["model_as_is"] = dict(st2, flags=str(AS_IS), mc_wall_s=round(r2.wall, 1))
-        if r2.invariant_violated or model_bad:
-            ctx.cov["model_counterexample"] = {
-                "invariants": sorted(set(r2.invariant_violated)), "cells": len(model_bad),
-                "types": sorted({m["type"] for m in model_bad}), "tlc_out": str(wd2 / "MC_ShowTable.out"),
-                "note": "the tables as transcribed from the code violate the property in these cells (diagnostic; each cell is replayed below)"}
+    model_bad = rig.read_ndjson(wd / "model_bad.ndjson")
+    if model_bad:
+        ctx.cov["model_counterexample"] = {
+            "invariants": ["B=>~R on the as-is tables"], "cells": len(model_bad),
+            "types": sorted({m["type"] for m in model_bad}),
+            "note": "the tables as transcribed from the code violate the property in these cells (diagnostic; each cell is replayed below)"}
     rc, confirmed = pipeline(ctx, cases, full=True)
     if model_bad:
         real = {(b["obs"]["ctx"], b["obs"]["type"], b["obs"]["val"]) for b in confirmed}
